@@ -173,7 +173,12 @@ fn under_path(leaf: &Expr, filler: &Expr, path: &[(u8, u8)]) -> Expr {
 
 pub fn run(ctx: &Ctx) -> i32 {
     let ls = leaves();
-    let cr = core();
+    let cr = if ctx.tier == speclib::report::Tier::Thorough {
+        // thorough: a 12-leaf core for the 4-leaf trees
+        [9usize, 10, 12, 11, 20, 22, 5, 6, 7, 13, 16, 18].iter().map(|i| ls[*i].clone()).collect()
+    } else {
+        core()
+    };
     let mut acc = Acc::new();
     units(&mut acc);
     // all trees with <= 3 leaves over all leaves, all five operator variants
@@ -393,7 +398,7 @@ pub fn run(ctx: &Ctx) -> i32 {
             level: "model_checking",
             exhaustive: true,
             rule: "state = expression tree built through the public types (all five operator variants, option nodes included); action() and complex_frames() compared with independent recursive definitions; unit helpers against the constants of the property text; byte_size against 128-bit arithmetic on a boundary lattice; distinct = distinct (helper result) observations".into(),
-            bound: format!("all trees with <= 3 leaves over 23 leaves (file names include /dev/stdout, /dev/stderr and -) (unary wrappers on operands and root for <= 2 leaves), all 4-leaf trees over a 6-leaf core, every operator path of length <= {plen} above 4 leaves, every periodic path (period <= 3) to depth 12; single-kind and alternating paths of every depth 13..70 and of every size in the range up to 1000"),
+            bound: format!("all trees with <= 3 leaves over 23 leaves (file names include /dev/stdout, /dev/stderr and -) (unary wrappers on operands and root for <= 2 leaves), all 4-leaf trees over a 6-leaf core (thorough: 12-leaf), every operator path of length <= {plen} above 4 leaves, every periodic path (period <= 3) to depth 12; single-kind and alternating paths of every depth 13..70 and of every size in the range up to 1000"),
             assumptions: vec!["a formatted print with an empty element list is outside the alphabet (the rule does not decide it)".into()],
             extra: serde_json::Map::new(),
         },
